@@ -351,6 +351,13 @@ def handle : R String := do
     let r ← int
     let w (x : Except PyErr Int) : String := match x with | .ok v => s!"{v}" | .error e => s!"err:{e.name}"
     pure s!"{w (Tiger.divU l r)} {w (Tiger.modU l r)}"
+  | "lex" => do
+    let s ← str
+    let toks := Lex.lexAll s
+    let w (t : Lex.Token) : String :=
+      let p := Loc.posAfter (s.take t.off)
+      s!"{t.kind.name} {wStr t.value} {p.1} {p.2}"
+    pure (wList w toks)
   | "wf" => do
     let v ← vm
     pure (wBool (wfb v))
